@@ -22,6 +22,9 @@ type Script struct {
 	OnPacket func(s *Script, p *Packet)
 	// FailWrites makes every Write return an error (link dead) starting with the n-th packet (0 = never, 1-based).
 	FailFrom int
+	// TransientFail, if it returns true for a packet, makes that Write fail (nothing is delivered)
+	// while the link stays usable, e.g. an expired write deadline.
+	TransientFail func(p *Packet) bool
 }
 
 // NewScript opens a connection whose peer is a fresh Script.
@@ -53,6 +56,11 @@ func (s *Script) OnData(c *Conn, data []byte) error {
 			c.Break("scripted write error")
 			s.acc = nil
 			return ErrLinkDown
+		}
+		if s.TransientFail != nil && s.TransientFail(p) {
+			s.Net.log(WireEvent{Conn: c.ID, Dir: '>', Pkt: p, Raw: raw, Note: "LOST, write error (link stays up)"})
+			s.acc = nil
+			return ErrWriteTimeout
 		}
 		s.Got = append(s.Got, p)
 		s.Net.log(WireEvent{Conn: c.ID, Dir: '>', Pkt: p, Raw: raw})
